@@ -39,4 +39,27 @@ theorem Within.listEq {A : List String} {R : List DS → List DS → Prop} (hR :
   | tryBody pre rest x a cb _ hm ih => exact ListEqA.replace pre rest (StmtEqA.tryBody x a cb ih hm)
   | catchBody pre rest x a b _ hm ih => exact ListEqA.replace pre rest (StmtEqA.catchBody x a b ih hm)
 
+/-- somewhere the rewrite `R` took place -/
+theorem Within.exists {A : List String} {R : List DS → List DS → Prop} {a b : List DS} (h : Within A R a b) :
+    ∃ l l', R l l' := by
+  induction h with
+  | here pre r => exact ⟨_, _, r⟩
+  | block _ _ _ _ ih => exact ih
+  | ifThen _ _ _ _ _ _ ih => exact ih
+  | ifElse _ _ _ _ _ _ ih => exact ih
+  | forBody _ _ _ _ _ _ _ _ _ ih => exact ih
+  | tryBody _ _ _ _ _ _ _ ih => exact ih
+  | catchBody _ _ _ _ _ _ _ ih => exact ih
+
+theorem Within.mono {A : List String} {R R' : List DS → List DS → Prop} (hR : ∀ l l', R l l' → R' l l')
+    {a b : List DS} (h : Within A R a b) : Within A R' a b := by
+  induction h with
+  | here pre r => exact .here pre (hR _ _ r)
+  | block pre rest _ hm ih => exact .block pre rest ih hm
+  | ifThen pre rest c e _ hm ih => exact .ifThen pre rest c e ih hm
+  | ifElse pre rest c t _ hm ih => exact .ifElse pre rest c t ih hm
+  | forBody pre rest w i c p _ hm hi ih => exact .forBody pre rest w i c p ih hm hi
+  | tryBody pre rest x a cb _ hm ih => exact .tryBody pre rest x a cb ih hm
+  | catchBody pre rest x a b _ hm ih => exact .catchBody pre rest x a b ih hm
+
 end Verif.Proofs.JsDecl
